@@ -1,5 +1,6 @@
 import AvroModel.Theorems.C03
 import AvroModel.Theorems.C03layouts
+import AvroModel.Theorems.C03typed
 /-
 C03 — decoder conformance, all parts together:
 * `Theorems/C03.lean`: the varint level (what the slice and reader varint decoders accept is what
